@@ -47,6 +47,12 @@ structure VisitState (α : Type) where
   x : Option α := none
   y : Option α := none
 
+/-- `vertex_id_result.zip(x_result).zip(y_result)` -/
+def VisitState.complete? {α : Type} (st : VisitState α) : Option (Vertex α) :=
+  match st.id, st.x, st.y with
+  | some i, some x, some y => some { vertexId := i, x := x, y := y }
+  | _, _, _ => none
+
 /-- one turn of the `while next.is_some()` loop: match the key, store the parsed value -/
 def visitStore {α : Type} (st : VisitState α) (key : String) (c : Cell α) : Except VisitErr (VisitState α) :=
   if key = "vertex_id" then
@@ -73,9 +79,9 @@ def visitEntries {α : Type} : List (Option (String × Cell α)) → VisitState 
     match visitStore st k c with
     | .error e => .error e
     | .ok st' =>
-      match st'.id, st'.x, st'.y with
-      | some i, some x, some y => .ok ({ vertexId := i, x := x, y := y }, rest)
-      | _, _, _ => visitEntries rest st'
+      match st'.complete? with
+      | some v => .ok (v, rest)
+      | none => visitEntries rest st'
 
 /-- `Vertex::deserialize` on what the deserializer offers: a map (csv record with headers, JSON object)
 or something else; `strictEnd`: the format rejects a map that was not consumed to its end -/
